@@ -56,7 +56,7 @@ REQUIRED_FEATURES = {
     "shared-base": 10, "param-over-car": 10, "param-over-base": 10, "latercar-over-earliercar": 10, "car-over-base": 10, "earliercar-over-laterbase": 5,
     "laterbase-over-earlierbase": 5, "file-from-2-bases": 10, "binary-file": 10, "binary-from-2-bases": 3, "protected-shadowed-in-template": 10,
     "tree-depth-3": 5, "data-default": 10, "data-inside-installation": 5, "data-outside": 5, "prepopulated": 10, "interpolation": 5,
-    "prebundled-config-replaced": 10, "non-string-param": 5,
+    "prebundled-config-replaced": 10, "non-string-param": 5, "same-file-name-in-two-dirs-of-a-base": 10,
 }
 BUDGET = {
     "quick": {"cases": 4000, "seconds": 30},
